@@ -2,6 +2,7 @@ package props
 
 import (
 	"crypto/sha256"
+	"encoding/json"
 	"fmt"
 	"strings"
 	"time"
@@ -605,6 +606,86 @@ func init() {
 			}, nil
 		}
 	}
+	// what a setter does is a function of the claims-set and the value, not of the reads made before it: a claims-set whose
+	// container is one of the three instantiations (stock / user component type / interface), empty or filled, is read
+	// through one of the read-side entry points (or not at all), then the component setter is called with entries of the
+	// container's own type; outcome, getters and encodings equal those of the run without the read
+	for _, p := range []int{1, 2} {
+		p := p
+		Scenarios[fmt.Sprintf("c11.reads-between-setters.p%d", p)] = func() (choice.Scenario, func() any) {
+			base := *c02Claims()[map[int]int{1: 2, 2: 0}[p]]
+			reads := []string{"none", "EncodeClaimsToCBOR", "EncodeClaimsToJSON", "json.Marshal", "MarshalCBOR method", "MarshalJSON method", "Validate", "getters", "ValidateAndEncodeClaimsToJSON"}
+			return func(c *choice.Ctx) {
+				inst := c.Choose("container", 3)
+				filled := c.Choose("filled", 2) == 1
+				read := 1 + c.Choose("read", len(reads)-1)
+				run := func(read int) string {
+					b := base
+					b.Comps = []*refmodel.Comp{okComp(7, 32)}
+					cl, err := buildBySetters(&b)
+					if err != nil {
+						return "build:" + err.Error()
+					}
+					mkEntry := func(sc *refmodel.Comp) psatoken.ISwComponent {
+						if inst == 1 {
+							return &AltComp{SwComponent: *realComp(sc), Note: "n"}
+						}
+						return realComp(sc)
+					}
+					var cont psatoken.ISwComponents
+					switch inst {
+					case 0:
+						cont = &psatoken.SwComponents[*psatoken.SwComponent]{}
+					case 1:
+						cont = &psatoken.SwComponents[*AltComp]{}
+					case 2:
+						cont = &psatoken.SwComponents[psatoken.ISwComponent]{}
+					}
+					if filled {
+						if err := cont.Add(mkEntry(okComp(1, 32))); err != nil {
+							return "add:" + err.Error()
+						}
+					}
+					switch t := cl.(type) {
+					case *psatoken.P1Claims:
+						t.SwComponents = cont
+					case *psatoken.P2Claims:
+						t.SwComponents = cont
+					}
+					switch reads[read] {
+					case "EncodeClaimsToCBOR":
+						_, _ = psatoken.EncodeClaimsToCBOR(cl)
+					case "EncodeClaimsToJSON":
+						_, _ = psatoken.EncodeClaimsToJSON(cl)
+					case "json.Marshal":
+						_, _ = json.Marshal(cl)
+					case "MarshalCBOR method":
+						if m, ok := cl.(interface{ MarshalCBOR() ([]byte, error) }); ok {
+							_, _ = m.MarshalCBOR()
+						}
+					case "MarshalJSON method":
+						if m, ok := cl.(json.Marshaler); ok {
+							_, _ = m.MarshalJSON()
+						}
+					case "Validate":
+						_ = cl.Validate()
+					case "getters":
+						_ = getterVector(cl)
+					case "ValidateAndEncodeClaimsToJSON":
+						_, _ = psatoken.ValidateAndEncodeClaimsToJSON(cl)
+					}
+					e1 := cl.SetSoftwareComponents([]psatoken.ISwComponent{mkEntry(okComp(2, 48)), mkEntry(fullComp(3, 64))})
+					e2 := cl.SetClientID(77)
+					return fmt.Sprintf("SetSoftwareComponents=%s SetClientID=%s validate=%s getters=%s enc=%s", resErr(e1), resErr(e2), resErr(cl.Validate()), getterVector(cl), encObs(cl))
+				}
+				c11stats.StateStr(fmt.Sprint("reads-between", p, inst, filled, read))
+				c11stats.Trans.Add(2)
+				if with, without := run(read), run(0); with != without {
+					c.Failf(fmt.Sprintf("C11:setter-depends-on-earlier-read:P%d:%s:container-%d:filled=%v", p, reads[read], inst, filled), "after %s\n  %s\nwithout it\n  %s", reads[read], with, without)
+				}
+			}, nil
+		}
+	}
 	// software component setters
 	Scenarios["c11.component"] = func() (choice.Scenario, func() any) {
 		return func(c *choice.Ctx) {
@@ -670,7 +751,7 @@ func init() {
 	Checks["C11"] = func(r *evid.Run) {
 		registerStandardExt()
 		c11stats = NewStats()
-		dl := deadline(r, 55*time.Second, 20*time.Minute)
+		dl := deadline(r, 120*time.Second, 20*time.Minute)
 		for _, p := range []int{1, 2} {
 			exploreChoice(r, fmt.Sprintf("c11.single.p%d", p), -1, dl)
 		}
@@ -678,6 +759,7 @@ func init() {
 		for _, p := range []int{1, 2} {
 			exploreChoiceOpts(r, fmt.Sprintf("c11.setter-private-storage.p%d", p), -1, dl, 1)
 			exploreChoice(r, fmt.Sprintf("c11.held-list.p%d", p), -1, dl)
+			exploreChoice(r, fmt.Sprintf("c11.reads-between-setters.p%d", p), -1, dl)
 		}
 		c11stats.Publish(r)
 		depth := 5
